@@ -77,7 +77,7 @@ Definition digest (h : heap) (d : loc) : string :=
 Definition changed_vars {A} (eqb : A -> A -> bool) (f : heap -> loc -> A) (h h' : heap) (vars : list loc) : list nat :=
   map fst (filter (fun p => negb (eqb (f h (snd p)) (f h' (snd p)))) (combine (seq 0 (List.length vars)) vars)).
 
-Definition kobs : ekind := mkK DNone RAlways false None None false false false.
+Definition kobs : ekind := mkK DNone RAlways false None None false false false false.
 
 Record rstate := mkRS { rs_h : heap; rs_vars : list loc; rs_i : nat; rs_diff : string;
                         rs_safe : bool; rs_selfonly : bool; rs_h0 : heap; rs_vars0 : list loc;
@@ -108,7 +108,7 @@ Definition run_step (F : facts) (fol nfol : nat) (st : rstate) (pe : pstep * opt
   match ec with
   | Some (e, recv) =>
       if infol then
-        mkRS h' vars' (S (rs_i st)) diff (rs_safe st && call_safe F h (call_of e)) (rs_selfonly st && self_only F h (call_of e))
+        mkRS h' vars' (S (rs_i st)) diff (rs_safe st && value_safe F h (call_of e)) (rs_selfonly st && self_only F h (call_of e))
              (if first then h else rs_h0 st) (if first then vars else rs_vars0 st) (if first then recv else rs_recv st)
              (rs_digests st ++ dg)
       else mkRS h' vars' (S (rs_i st)) diff (rs_safe st) (rs_selfonly st) (rs_h0 st) (rs_vars0 st) (rs_recv st) (rs_digests st ++ dg)
